@@ -75,6 +75,24 @@ def _values(fam: str, spelling: str):
     raise KeyError(fam)
 
 
+_PREC = st.one_of(st.sampled_from([1, 2, 9, 10, 18, 19, 20, 28, 29, 37, 38]), st.integers(1, 38))
+
+
+@st.composite
+def _spelling(draw, fam):
+    """Type spelling: the fixed list, or for the NUMBER families any precision/scale and keyword."""
+    if fam == "number_p0" and draw(st.booleans()):
+        p = draw(_PREC)
+        kw = draw(st.sampled_from(["NUMBER", "DECIMAL", "NUMERIC"]))
+        return f"{kw}({p},0)"
+    if fam == "number_ps" and draw(st.booleans()):
+        p = draw(_PREC.filter(lambda x: x >= 2))
+        sc = draw(st.one_of(st.sampled_from([1, p - 1, p]), st.integers(1, p)))
+        kw = draw(st.sampled_from(["NUMBER", "DECIMAL", "NUMERIC"]))
+        return f"{kw}({p},{sc})"
+    return draw(st.sampled_from(FAMILIES[fam]))
+
+
 @st.composite
 def _case(draw, tier):
     path = draw(st.sampled_from(PATHS))
@@ -82,7 +100,7 @@ def _case(draw, tier):
     cols = []
     for _ in range(ncols):
         fam = draw(st.sampled_from(sorted(FAMILIES)))
-        cols.append([fam, draw(st.sampled_from(FAMILIES[fam]))])
+        cols.append([fam, draw(_spelling(fam))])
     nrows = draw(st.integers(1, 6 if tier == "quick" else 25))
     rows = []
     for _ in range(nrows):
@@ -225,6 +243,15 @@ def run_roundtrip(case, ctx: Ctx) -> None:
     if path not in PATHS or not cols or any(f not in FAMILIES for f, _ in cols):
         raise InvalidCase()
     fams = [f for f, _ in cols]
+    import re as _re
+
+    for f, sp in cols:
+        if sp not in FAMILIES[f] and not (f in ("number_p0", "number_ps") and _re.fullmatch(r"(NUMBER|DECIMAL|NUMERIC)\((\d+),(\d+)\)", sp or "")):
+            raise InvalidCase()
+        if f in ("number_p0", "number_ps") and "(" in sp:
+            p_, s_ = _ps(sp)
+            if not (1 <= p_ <= 38 and 0 <= s_ <= p_ and (s_ == 0) == (f == "number_p0")):
+                raise InvalidCase()
     rows = []
     for r in case["rows"]:
         if len(r) != len(cols):
@@ -232,6 +259,26 @@ def run_roundtrip(case, ctx: Ctx) -> None:
         rows.append([v["$json"] if isinstance(v, dict) and "$json" in v else dec(v) for v in r])
     if not rows:
         raise InvalidCase()
+    for r in rows:  # values must be exactly representable in the declared type (shrunk/replayed cases are re-validated)
+        for (f, sp), v in zip(cols, r):
+            if v is None:
+                continue
+            ok = {
+                "bool": lambda: isinstance(v, bool),
+                "int": lambda: isinstance(v, int) and not isinstance(v, bool) and -(2**63) <= v < 2**63,
+                "number_p0": lambda: isinstance(v, int) and not isinstance(v, bool) and abs(v) < 10 ** _ps(sp)[0],
+                "number_ps": lambda: isinstance(v, Decimal) and v == v.quantize(Decimal(1).scaleb(-_ps(sp)[1]), context=__import__("decimal").Context(prec=80)) and v.copy_abs() < Decimal(10) ** (_ps(sp)[0] - _ps(sp)[1]),
+                "float": lambda: isinstance(v, float),
+                "text": lambda: isinstance(v, str) and len(v) <= 40 and "$" not in v and "\x00" not in v,
+                "date": lambda: type(v) is dt.date,
+                "time": lambda: isinstance(v, dt.time),
+                "ts_ntz": lambda: isinstance(v, dt.datetime) and v.tzinfo is None,
+                "ts_tz": lambda: isinstance(v, dt.datetime) and v.tzinfo is not None,
+                "binary": lambda: isinstance(v, bytes),
+                "variant": lambda: True,
+            }[f]()
+            if not ok:
+                raise InvalidCase()
     if path == "write_pandas" and not all(_pandas_supported(f) for f in fams):
         # write_pandas carries only the pandas-native column kinds (DESIGN §4 C01); other kinds are re-drawn as text
         raise_kinds = [f for f in fams if not _pandas_supported(f)]
